@@ -39,7 +39,9 @@ J sched_json(Rng &r, const std::string &tier, int n_tasks_hint, bool want_fn_yie
 	s.set("starve_task", (int) r.range(1, std::max(1, n_tasks_hint + 3)));
 	s.set("starve_from_ms", (int) r.range(0, 500));
 	s.set("starve_for_ms", (int) r.range(5, 400));
-	s.set("jitter_us", r.chance(700) ? 0 : (int) r.range(1, 3000));
+	int jit = r.chance(700) ? 0 : (int) r.range(1, 3000);
+	s.set("jitter_us", jit);
+	{ uint64_t g = r.below(100); s.set("grid_us", jit ? 1 : g < 45 ? 5000 : g < 60 ? 1000 : 1); }
 	s.set("epoch_phase_us", (long long) r.below(1000000));
 	return s;
 }
@@ -57,6 +59,7 @@ static sim::SchedParams parse_sched(const J &plan) {
 	p.starve_from_us = (uint64_t) s.geti("starve_from_ms", 0) * 1000;
 	p.starve_for_us = (uint64_t) s.geti("starve_for_ms", 0) * 1000;
 	p.jitter_us = (uint32_t) s.geti("jitter_us", 0);
+	p.grid_us = (uint32_t) s.geti("grid_us", 1);
 	p.epoch0_us = 1700000000ULL * 1000000ULL + (uint64_t) s.geti("epoch_phase_us", 0);
 	p.max_steps = (uint64_t) s.geti("max_steps", 4000000);
 	p.max_time_us = (uint64_t) s.geti("max_time_s", 900) * 1000000ULL;
@@ -348,6 +351,39 @@ void Engine::exec_op(const J &op, int task, int idx) {
 	if (prop) prop->after_op(*this, oplog.back());
 }
 
+// a node logs out of / into the bus: the interface above it bumps its table version and reports MSG_NODE_LOST / MSG_NODE_NEW
+void Engine::topo_event(const J &e) {
+		std::string k = e.gets("topo");
+		int n = -1;
+		std::vector<uint8_t> a = j_bytes(e["node"]);
+		for (size_t q = 0; q < bus.nodes.size(); q++) if (bus.nodes[q].addr == a && (k == "lost" ? bus.nodes[q].present : !bus.nodes[q].present)) n = (int) q;
+		if (n < 0) return;
+		bus::Node &nd = bus.nodes[(size_t) n];
+		if (nd.parent < 0) return;
+		if (!bus.subtree_present(nd.parent) && !(k == "new" && e.has("as"))) return;
+		if (k == "new" && e.has("as")) {
+			// re-login at another local address below the same or another interface
+			std::vector<uint8_t> na = j_bytes(e["as"]);
+			std::vector<uint8_t> pa2(na.begin(), na.end() - 1);
+			int np = bus.find(pa2);
+			if (np < 0 || bus.find(na) >= 0 || !bus.subtree_present(np)) return;
+			auto &oc = bus.nodes[(size_t) nd.parent].children; oc.erase(std::remove(oc.begin(), oc.end(), n), oc.end());
+			nd.addr = na; nd.parent = np; bus.nodes[(size_t) np].children.push_back(n);
+		}
+		nd.present = (k == "new");
+		if (k == "new") nd.tx_seq = 1;
+		bus::Node &pa = bus.nodes[(size_t) nd.parent];
+		if (!bus.subtree_present(nd.parent)) return;
+		pa.tab_version = (uint8_t) (pa.tab_version == 255 ? 1 : pa.tab_version + 1);
+		if (pa.enum_active) pa.enum_dirty = true;
+		std::vector<uint8_t> d{pa.tab_version, nd.addr.back()};
+		d.insert(d.end(), nd.uid, nd.uid + 7);
+		std::vector<bus::Fault> fs;
+		for (size_t q = 0; q < e["faults"].size(); q++) fs.push_back(bus::fault_from(e["faults"][q]));
+		bus.emit(nd.parent, k == "new" ? MSG_NODE_NEW : MSG_NODE_LOST, d, fs, 0, (int) e.geti("tag", 0));
+		return;
+}
+
 void Engine::run_bus_events(const J &ev) {
 	// events are sorted by at_us by the generator; executed by a dedicated task
 	uint64_t t0 = sim::now_us();
@@ -355,37 +391,7 @@ void Engine::run_bus_events(const J &ev) {
 		const J &e = ev[i];
 		uint64_t at = t0 + (uint64_t) e.geti("at_us", 0);
 		if (at > sim::now_us()) sim::sleep_us(at - sim::now_us());
-		if (e.has("topo")) {
-			std::string k = e.gets("topo");
-			int n = -1;
-			std::vector<uint8_t> a = j_bytes(e["node"]);
-			for (size_t q = 0; q < bus.nodes.size(); q++) if (bus.nodes[q].addr == a && (k == "lost" ? bus.nodes[q].present : !bus.nodes[q].present)) n = (int) q;
-			if (n < 0) continue;
-			bus::Node &nd = bus.nodes[(size_t) n];
-			if (nd.parent < 0) continue;
-			if (!bus.subtree_present(nd.parent) && !(k == "new" && e.has("as"))) continue;
-			if (k == "new" && e.has("as")) {
-				// re-login at another local address below the same or another interface
-				std::vector<uint8_t> na = j_bytes(e["as"]);
-				std::vector<uint8_t> pa2(na.begin(), na.end() - 1);
-				int np = bus.find(pa2);
-				if (np < 0 || bus.find(na) >= 0 || !bus.subtree_present(np)) continue;
-				auto &oc = bus.nodes[(size_t) nd.parent].children; oc.erase(std::remove(oc.begin(), oc.end(), n), oc.end());
-				nd.addr = na; nd.parent = np; bus.nodes[(size_t) np].children.push_back(n);
-			}
-			nd.present = (k == "new");
-			if (k == "new") nd.tx_seq = 1;
-			bus::Node &pa = bus.nodes[(size_t) nd.parent];
-			if (!bus.subtree_present(nd.parent)) continue;
-			pa.tab_version = (uint8_t) (pa.tab_version == 255 ? 1 : pa.tab_version + 1);
-			if (pa.enum_active) pa.enum_dirty = true;
-			std::vector<uint8_t> d{pa.tab_version, nd.addr.back()};
-			d.insert(d.end(), nd.uid, nd.uid + 7);
-			std::vector<bus::Fault> fs;
-			for (size_t q = 0; q < e["faults"].size(); q++) fs.push_back(bus::fault_from(e["faults"][q]));
-			bus.emit(nd.parent, k == "new" ? MSG_NODE_NEW : MSG_NODE_LOST, d, fs, 0, (int) e.geti("tag", 0));
-			continue;
-		}
+		if (e.has("topo")) { topo_event(e); continue; }
 		std::vector<bus::Fault> fs;
 		for (size_t q = 0; q < e["faults"].size(); q++) fs.push_back(bus::fault_from(e["faults"][q]));
 		if (e.has("inj")) bus.fired["stream:" + e.gets("inj")]++;
